@@ -904,7 +904,7 @@ def shrink_candidates(case):
 
 MANIFEST = {
     "level_text": (
-        "Machine-checked proofs (Coq 8.16, 46 theorems, all closed under the global context) about (a) the certificate "
+        "Machine-checked proofs (Coq 8.16, 50 theorems, all closed under the global context) about (a) the certificate "
         "checker cert_ok that is run, extracted, on the implementation's own (x, y, u, v): acceptance implies x is a "
         "minimum-cost perfect matching over listed pairs, y its inverse and (u, v) a dual certificate, for every n and every "
         "sparsity pattern; (b) a line-level executable Gallina model of lapjv.py + _lapjv.pyx with switches rt in {AsIs, Fixed}, "
@@ -919,8 +919,12 @@ MANIFEST = {
         "is injective for every permutation, and the identity clause holds at the level of the assignment problem."),
     "level_note": (
         "Not proved: that the Fixed model always returns (a rebuild of scan in augment is never empty - needs the adequacy of "
-        "inf = sum(c) + 1, i.e. every finite reduced-cost distance <= sum(c)); optimality for inputs with single-candidate "
-        "rows (-inf prices) - both covered per instance by the verified checker on every run. Known findings F1 "
+        "inf = sum(c) + 1; with eps 0 in the retry decision it is even false for the model's fuel, C01_lapjv_fixed_eps0_not_total); "
+        "optimality for inputs with single-candidate rows (-inf prices): only the price-update core over InvE and the "
+        "spec-level reserved-block lemma are proved. Both hypotheses are evaluated on every generated case by the check (the "
+        "repaired model returns; rows with >= 2 candidates are theorem-covered, the others checker-only) and both clauses are "
+        "covered per instance by the verified checker on every run. ASan stream of 3 000 has_PM instances (2 044 with a "
+        "one-candidate row): no crash; heap overflows occur only on inputs WITHOUT a perfect matching (outside the quantifier). Known findings F1 "
         "(reduction_transfer row offset) and F6 (eps tie band) are reported as KNOWN-FINDING and decided by model attribution "
         "(impl == AsIs model and the Fixed model satisfies the property on that input), never muted. Trusted: Coq kernel + "
         "vm_compute; extraction (ExtrOcamlBasic only) and the S-expression driver; the Python harness; exactness of float64 "
